@@ -315,8 +315,9 @@ def check_request_line(ck, env, RP="C01"):
     ck.floor(R, len(ctor), 1, "RequestStartLine constructions")
     for c in ctor:
         at = flow.node_of(c)
-        idx = [group_index(flow.expand(a, at)) for a in c.args]
-        if None in idx or len(idx) != 3:
+        cargs = [argx(ck.repo, fi, c, i_) for i_ in range(3)]
+        idx = [None if a is None else group_index(flow.expand(a, at)) for a in cargs]
+        if None in idx or len(c.args) + len(c.keywords) != 3:
             raise AnalysisError("RequestStartLine built from something else than match groups at %s" % fi.site(c))
         ck.ob(R, fi, c, idx == [1, 2, 3], "RequestStartLine(method, path, version) is built from groups 1, 2, 3 in order")
 
